@@ -38,11 +38,7 @@ func repoKey(r *claircore.Repository) string {
 	if r == nil {
 		return ""
 	}
-	k := r.Name + "|" + r.Key + "|" + r.URI
-	if s := r.CPE.String(); s != "" && s != "cpe:2.3:*:*:*:*:*:*:*:*:*:*:*" {
-		k += "|" + r.CPE.BindFS()
-	}
-	return k
+	return r.Name + "|" + r.Key + "|" + r.URI
 }
 
 func verStr(v *claircore.Version) string {
@@ -99,7 +95,7 @@ func (l *line) tok(s string) *line {
 	return l
 }
 func (l *line) str(s string) *line { return l.tok(hs(s)) }
-func (l *line) n(i int) *line     { return l.tok(strconv.Itoa(i)) }
+func (l *line) n(i int) *line      { return l.tok(strconv.Itoa(i)) }
 func (l *line) String() string     { return l.b.String() }
 
 // ---- the direct statement oracle: expected multiset vs. returned multiset ----
@@ -292,6 +288,7 @@ func Run(cfg hx.Config) error {
 	runSecdb(r, g, cfg)
 	runDebian(r, g, cfg)
 	runAws(r, g, cfg)
+	runOval(r, g, cfg)
 	return r.Close()
 }
 
